@@ -2,6 +2,8 @@ try:
     import typing  # help IDEs with type-hinting inside docstrings  # noqa: F401 (unused import)
 except ImportError:
     pass
+from functools import partial
+
 import numpy  # help IDEs with type-hinting inside docstrings
 import numpy as np
 
@@ -280,7 +282,7 @@ class XYContainer(IndexedContainer):
             err_val=err_val,
             corr_coeff=correlation,
             relative=relative,
-            reference=lambda: self._get_error_reference(_axis),
+            reference=partial(self._get_error_reference, _axis),  # (a bound method: follows the container when it is copied)
         )
         _name = self._add_error_object(name=name, error_object=_err, axis=_axis)
         return _name
@@ -313,7 +315,7 @@ class XYContainer(IndexedContainer):
             matrix_type=matrix_type,
             err_val=err_val,
             relative=relative,
-            reference=lambda: self._get_error_reference(_axis),
+            reference=partial(self._get_error_reference, _axis),  # (a bound method: follows the container when it is copied)
         )
         _err.check_cov_mat_symmetry()
         _name = self._add_error_object(name=name, error_object=_err, axis=_axis)
